@@ -2,6 +2,7 @@ import GenjaxModel.Proofs.State
 import GenjaxModel.Proofs.StateSpec
 import GenjaxModel.Proofs.StateSpecShape
 import GenjaxModel.Proofs.StateSpecAsis
+import GenjaxModel.Proofs.Interp
 /-!
 # C19 — state/save collects exactly what was saved
 
@@ -222,5 +223,37 @@ theorem C19_asisOK_rejects_the_repaired_defects :
       (["a", "x"], .stack [.atom 2 [0], .atom 2 [1]])] := by
   intro p1 p2
   refine ⟨by rfl, by rfl, by rfl, by rfl⟩
+
+/-- the state interpreter is NOT guarded (Model/Interp.lean, kinds: scan interpreted, nested jit / checkpoint
+    evaluated in place since fix 9b3be7d, custom_jvp / custom_vjp / while re-bound): handled and dropped saves
+    partition the saves of the program; nothing is dropped iff no re-bound equation holds a save, and then every save
+    is collected once, in order (`_partial`: the open finding state-dropped-in-uninterpreted-call is the other case) -/
+theorem C19_collects_all_unless_rebound_partial (j : Interp.J) :
+    ((Interp.runOld j).1 ++ (Interp.runOld j).2).Perm j.sites ∧
+    ((Interp.runOld j).2 = [] ↔ j.blocked = false) ∧
+    (j.blocked = false → (Interp.runOld j).1 = j.sites) := by
+  have hesc := Interp.runOld_escapes_iff j
+  have hblk := Interp.run_none_iff_blocked j
+  refine ⟨Interp.runOld_partition j, ?_, ?_⟩
+  · constructor
+    · intro h
+      cases hb : j.blocked
+      · rfl
+      · exact absurd h (hesc.mpr (hblk.mpr hb))
+    · intro h
+      by_contra hne
+      have := hblk.mp (hesc.mp hne)
+      rw [h] at this; exact Bool.noConfusion this
+  · intro h
+    have hn : Interp.run j ≠ none := by
+      intro hr; have := hblk.mp hr; rw [h] at this; exact Bool.noConfusion this
+    have := Interp.runOld_eq_run j hn
+    exact Interp.run_handles_all j _ this
+
+/-- a nested jit / checkpoint (kind `inline`) is transparent; a custom_jvp function (kind `rebind`) drops its save -/
+theorem C19_call_examples :
+    Interp.runOld (.call .inline (.site 1 .done) (.site 2 .done)) = ([1, 2], []) ∧
+    Interp.runOld (.call .rebind (.site 1 .done) (.site 2 .done)) = ([2], [1]) := ⟨rfl, rfl⟩
+
 
 end Genjax.State
